@@ -17,7 +17,10 @@ RULE = ('case = (word from one reference row of an LDR/STR-family encoding incl.
 ASSUMPTIONS = ['vf/ref/mem.py + sem_mem.py transcribe MemA/MemU and the A8 load/store pseudocode',
                'exclusive monitors never grant (a permitted implementation): STREX status 1, no store',
                'UNKNOWN results (legacy unaligned halfword/Thumb word accesses) are not compared']
-CTXS = [('v7-pmsa-r', 'off'), ('v6-pmsa-sec', 'off'), ('v7-vmsa-virt', 'off'), ('v6-pmsa', 'off')]
+# protection on in a third of the contexts: the unprivileged forms (LDRT, STRT, LDRBT, STRBT, LDRHT ...) differ from the
+# ordinary ones only there (a privileged-only region makes them abort), and an aborting access must leave the base alone
+CTXS = [('v7-pmsa-r', 'off'), ('v6-pmsa-sec', 'off'), ('v7-vmsa-virt', 'off'), ('v6-pmsa', 'off'),
+        ('v6-pmsa-sec', 'mpu'), ('v7-pmsa-r', 'mpu'), ('v7-vmsa-sec', 'mmu')]
 
 
 def after(ctx, rng, desc):
